@@ -1368,8 +1368,19 @@ fn parse(input: Span) -> IResult<Span, Positioned<InlineOperator>> {
 
 fn fields_mode(input: Span) -> IResult<Span, FieldMode> {
     alt((
-        alt((tag("+"), tag("only"), tag("include"))).map(|_| FieldMode::Only),
-        alt((tag("-"), tag("except"), tag("drop"))).map(|_| FieldMode::Except),
+        // the word forms are whole words: `fields only_x` selects the field `only_x`
+        alt((
+            tag("+"),
+            tag("only").terminated(peek(multispace1)),
+            tag("include").terminated(peek(multispace1)),
+        ))
+        .map(|_| FieldMode::Only),
+        alt((
+            tag("-"),
+            tag("except").terminated(peek(multispace1)),
+            tag("drop").terminated(peek(multispace1)),
+        ))
+        .map(|_| FieldMode::Except),
     ))(input)
 }
 
